@@ -245,6 +245,21 @@ def _const(run, P):
                              if ns and m_[1]["V_n"] == ns[0][1]["V_n"]]
                     ok = bool(cs) and bool(ns) and not wrong
     # operands form a multiset: nothing keyed by an operand
+    def operand_lists(m_):
+        """Lists of a method that collect (some of) the children of the node."""
+        p_ = m_.params[1] if len(m_.params) > 1 else None
+        out = set()
+        for lp_ in ast.walk(m_.node):
+            if isinstance(lp_, ast.For) and isinstance(lp_.target, ast.Name) \
+                    and "children" in norm(lp_.iter):
+                for y in ast.walk(lp_):
+                    if isinstance(y, ast.Call) and isinstance(y.func, ast.Attribute) \
+                            and y.func.attr == "append" and isinstance(y.func.value, ast.Name) \
+                            and y.args and any(isinstance(z, ast.Name) and z.id == lp_.target.id
+                                               for z in ast.walk(y.args[0])):
+                        out.add(y.func.value.id)
+        return out
+
     keyed = []
     for m_ in E.methods.values():
         for x in ast.walk(m_.node):
@@ -256,7 +271,8 @@ def _const(run, P):
                 if isinstance(key, ast.Name) and key.id in tv:
                     keyed.append((m_, x))
             if isinstance(x, ast.Call) and dotted(x.func) in ("set", "frozenset", "dict.fromkeys") \
-                    and x.args and "children" in norm(x.args[0]):
+                    and x.args and ("children" in norm(x.args[0]) or (
+                        isinstance(x.args[0], ast.Name) and x.args[0].id in operand_lists(m_))):
                 keyed.append((m_, x))
     run.ob("C18.const", keyed[0][0] if keyed else ca, keyed[0][1] if keyed else ca.node, not keyed,
            construct="the operands of a sum / product are never used as keys of a dict or members "
